@@ -23,7 +23,12 @@ def asg(d):
 
 
 def run(case):
-    c = IndexedCache(list(case['keys']))
+    if case.get('keys_by_setter'):
+        # the way every operator cache of symbolic.py is set up: created without keys, the key list assigned afterwards
+        c = IndexedCache()
+        c.keys = list(case['keys'])
+    else:
+        c = IndexedCache(list(case['keys']))
     obs, mix = [], []
     for op in case['ops']:
         try:
